@@ -120,7 +120,9 @@ func (s *Sizes) Sizeof(T types.Type) int64 {
 		offsets := s.Offsetsof(fields)
 		a := s.Alignof(T)
 		lsz := s.Sizeof(fields[n-1].Type())
-		if lsz == 0 {
+		if lsz == 0 && offsets[n-1] > 0 {
+			// A trailing zero-sized field gets one byte of space so that its
+			// address is inside the struct, unless the struct is zero-sized.
 			lsz = 1
 		}
 		z := offsets[n-1] + lsz
